@@ -15,11 +15,17 @@ type ldCore struct {
 	Err  bool
 	Log  *mon.Lifecycle
 	Hits int
+	// Probe, when set, runs inside LoadConfig before the document is returned (a loader that inspects
+	// the configuration loaded so far, profile / overlay style).
+	Probe func()
 }
 
 func (l *ldCore) load() ([]byte, error) {
 	l.Hits++
 	l.Log.Add("load", l.Nm)
+	if l.Probe != nil {
+		l.Probe()
+	}
 	if l.Err {
 		return nil, errors.New("injected fault: loader " + l.Nm)
 	}
